@@ -248,7 +248,8 @@ class Extractor:
             raise AnchorLost(f"{rel}: {kind} {name} found {len(ms)} times (need exactly 1)")
         start = ms[0].start(1)
         # ends at matching brace, or at ';' for const/static/type/tuple struct
-        i = start
+        # (scan from the end of the matched header: the `(` of `pub(crate)` is not a tuple-struct parenthesis)
+        i = ms[0].end(1)
         n = len(s)
         while i < n and s[i] not in "{;(":
             i += 1
